@@ -199,9 +199,20 @@ def _init_values(prog, cn):
     for p in paths(prog, cn, init, inline="deep"):
         if p.exit[0] != "return":
             continue
+        # a constructor that writes a fresh file and then loads it (on-disk creation): a value unpacked from slot i is the
+        # value packed at slot i of the same format on that path
+        packs = [e.args[0] for e in p.events if e.kind == "call" and e.name == "write" and e.args and e.args[0][0] == "pack"]
         for (b, n), v in p.fields.items():
             if b == SELF:
-                out.setdefault(n, set()).add(strip_epochs(v))
+                v = strip_epochs(v)
+                w = v
+                while w[0] == "call" and w[1] in (("g", "int"), ("g", "float")) and len(w[2]) == 1:
+                    w = w[2][0]
+                if w[0] == "unp":
+                    for pk in packs:
+                        if pk[1].lstrip("<>=@!") == w[1].lstrip("<>=@!") and w[2] < len(pk[2]):
+                            v = strip_epochs(pk[2][w[2]])
+                out.setdefault(n, set()).add(v)
     return out
 
 
